@@ -502,6 +502,60 @@ where
     });
 }
 
+/// `find_reasonable_epsilon` started next to a support boundary with the momentum pointing out of the support, so that
+/// the first unit leapfrog lands where the log-density (and, for `SqrtGamma`, the gradient too) is not finite: the
+/// halving loop, its `&&` guard and the un-refreshed `grad_prime` are exercised; under a watchdog because a wrong
+/// guard loops forever.
+pub fn fre_boundary<T: Sc, B: AutodiffBackend>(out: &mut Out, rng: &mut Sm, prop: &str) {
+    let id = out.fresh_id("fb");
+    let dim = rng.range(1, 3) as usize;
+    let kind = rng.below(4);
+    let (target, start): (AnyTarget, Vec<f64>) = match kind {
+        0 | 1 => (AnyTarget::SqrtGamma { rate: rng.uniform(2.0, 12.0) }, (0..dim).map(|_| rng.log_uniform(0.05, 2.0)).collect()),
+        2 => (AnyTarget::LogBox, (0..dim).map(|_| rng.uniform(0.02, 0.98)).collect()),
+        _ => {
+            let mut x: Vec<f64> = (0..dim).map(|_| rng.normal() * 0.5).collect();
+            x[0] = rng.log_uniform(0.01, 1.0);
+            (AnyTarget::HalfLine { rate: rng.uniform(0.5, 3.0) }, x)
+        }
+    };
+    // momentum: mostly outward (negative, several times the distance to the boundary), sometimes mild
+    let mom: Vec<f64> = start.iter().map(|x| if rng.coin(0.8) { -(x + 0.3) * rng.log_uniform(1.0, 20.0) } else { rng.normal() }).collect();
+    if !out.selected(&id) {
+        return;
+    }
+    // a hung call keeps spinning in its thread: after two hangs the remaining cases are skipped (counted)
+    static HANGS: std::sync::atomic::AtomicUsize = std::sync::atomic::AtomicUsize::new(0);
+    if HANGS.load(std::sync::atomic::Ordering::SeqCst) >= 2 {
+        out.count("fre_boundary_skipped_after_hangs");
+        return;
+    }
+    let (tg, st, mo) = (target.clone(), start.clone(), mom.clone());
+    let r = crate::c14::watchdog(20, move || verif_find_reasonable_epsilon::<B, T, AnyTarget>(t1::<T, B>(&st), t1::<T, B>(&mo), &tg).to64());
+    out.count("predicate_evaluations");
+    out.count(&format!("fre_boundary_{}", target.name()));
+    let hxv = |v: &[f64]| v.iter().map(|x| T::from64(*x).hex()).collect::<Vec<_>>().join(" ");
+    match r {
+        None => {
+            HANGS.fetch_add(1, std::sync::atomic::Ordering::SeqCst);
+            out.fail(&id, &format!("{prop}:fre-hang"), "find_reasonable_epsilon did not return within 20 s on a bounded-support target", dim as u64,
+                format!("{} {} start {start:?} momentum {mom:?}", T::NAME, target.spec::<T>()));
+        }
+        Some(Err(e)) => out.fail(&id, &format!("{prop}:fre-panic"), "find_reasonable_epsilon panicked on a bounded-support target", dim as u64, e),
+        Some(Ok(e)) => {
+            if !(e > 0.0 && e.is_finite()) {
+                out.fail(&id, &format!("{prop}:fre-eps"), "find_reasonable_epsilon returned a step size that is not positive and finite", dim as u64,
+                    format!("{e} for {} {} start {start:?} momentum {mom:?}", T::NAME, target.spec::<T>()));
+            }
+            if e < 0.5 {
+                out.count("fre_halving_or_crossing_down");
+            }
+            out.case(format!("c04f {id} {} ; {} ; {} ; {}", T::NAME, target.spec::<T>(), hxv(&start), hxv(&mom)), format!("{id} {}", T::from64(e).tok()));
+            out.nontrivial(&format!("fb:{}:{}:{dim}:{:?}", T::NAME, target.name(), start));
+        }
+    }
+}
+
 pub fn run_c04(out: &mut Out) {
     let mut rng = out.rng("c04");
     let n = out.n(40, 800);
@@ -517,6 +571,13 @@ pub fn run_c04(out: &mut Out) {
             injected::<f64, Autodiff<NdArray<f64>>>(out, &mut rng);
         } else {
             injected::<f32, Autodiff<NdArray<f32>>>(out, &mut rng);
+        }
+    }
+    for i in 0..out.n(60, 1500) {
+        if i % 2 == 0 {
+            fre_boundary::<f64, Autodiff<NdArray<f64>>>(out, &mut rng, "C04");
+        } else {
+            fre_boundary::<f32, Autodiff<NdArray<f32>>>(out, &mut rng, "C04");
         }
     }
 }
